@@ -540,21 +540,21 @@ example : (processPart cfg0 2 [hc, str "#x", hc] (some (str "bye now")) (ctx w3)
     [(1, str ":bo!~u@h PART #c :bye now"), (2, str ":bo!~u@h PART #c :bye now"),
      (3, str ":bo!~u@h PART #c :bye now")] := by decide
 example : (processPart cfg0 2 [hc, str "#x", hc] (some (str "bye now")) (ctx w3)).direct =
-    [str ":irc.irc 403 bo #x :No such channel", str ":irc.irc 442 bo #c :You're not on that channel"] := by
+    [(str ":irc.irc " ++ Reply.ErrNoSuchChannel403 (client := str "bo") (channel := str "#x")), (str ":irc.irc " ++ Reply.ErrNotOnChannel442 (client := str "bo") (channel := str "#c"))] := by
   decide
 example : partQueue w3 bo (fun ch => partLine (str "bo!~u@h") ch (some (str "bye now"))) []
       [hc, str "#x", hc] =
     [(1, str ":bo!~u@h PART #c :bye now"), (2, str ":bo!~u@h PART #c :bye now"),
      (3, str ":bo!~u@h PART #c :bye now")] ∧
     partReplies w3 bo (str "bo") [] [hc, str "#x", hc] =
-      [str "403 bo #x :No such channel", str "442 bo #c :You're not on that channel"] := by decide
+      [(Reply.ErrNoSuchChannel403 (client := str "bo") (channel := str "#x")), (Reply.ErrNotOnChannel442 (client := str "bo") (channel := str "#c"))] := by decide
 -- the last member leaves an ad-hoc channel and lists it again: the channel is gone, 403
-example : (processPart cfg0 1 [hc, hc] none (ctx w1)).direct = [str ":irc.irc 403 al #c :No such channel"] ∧
+example : (processPart cfg0 1 [hc, hc] none (ctx w1)).direct = [(str ":irc.irc " ++ Reply.ErrNoSuchChannel403 (client := str "al") (channel := str "#c"))] ∧
     (processPart cfg0 1 [hc, hc] none (ctx w1)).queued = [(1, str ":al!~u@h PART #c")] := by decide
 -- not on the channel: nothing is queued
 example : (processPart cfg0 3 [hc] none (ctx w2)).queued = [] ∧
     (processPart cfg0 3 [hc] none (ctx w2)).direct =
-      [str ":irc.irc 442 cy #c :You're not on that channel"] := by decide
+      [(str ":irc.irc " ++ Reply.ErrNotOnChannel442 (client := str "cy") (channel := str "#c"))] := by decide
 
 -- JOIN: the line goes to the two other members through their queues, to the joiner through its socket,
 -- followed by the NAMES reply listing all three
@@ -562,7 +562,7 @@ example : (processJoin cfg0 3 [hc] none (ctx w2)).queued =
     [(1, str ":cy!~u@h JOIN #c"), (2, str ":cy!~u@h JOIN #c")] ∧
     (processJoin cfg0 3 [hc] none (ctx w2)).direct =
       [str ":cy!~u@h JOIN #c", str ":irc.irc 353 cy = #c :~al bo cy",
-       str ":irc.irc 366 cy #c :End of /NAMES list"] := by decide
+       (str ":irc.irc " ++ Reply.RplEndOfNames366 (client := str "cy") (channel := str "#c"))] := by decide
 example : acceptedOf cfg0 3 [hc] none (ctx w2) = [hc] ∧ acceptedOf cfg0 3 [hc] none (ctx w3) = [] := by decide
 -- a refused JOIN (already a member) announces nothing
 example : (processJoin cfg0 3 [hc] none (ctx w3)).queued = [] ∧
